@@ -101,6 +101,128 @@ def pcg32_ref(seed, seq, n):
     return out
 
 
+def db(bits):
+    return struct.unpack("<d", struct.pack("<Q", bits & 0xFFFFFFFFFFFFFFFF))[0]
+
+
+def bd(x):
+    if x != x:
+        return 0x7FF8000000000000
+    return struct.unpack("<Q", struct.pack("<d", x))[0]
+
+
+DBL_MIN = 2.0 ** -1022
+
+
+def ddiv(a, b):
+    if b == 0:
+        if a == 0 or a != a:
+            return math.nan
+        return math.copysign(math.inf, a) * math.copysign(1.0, b)
+    return a / b
+
+
+def dsqrt(x):
+    if x != x or x < 0:
+        return math.nan
+    return math.sqrt(x)
+
+
+def oracle_double(fn, t, out):
+    """the clauses on the double overloads / instantiations; python floats ARE binary64, so the definition is the oracle"""
+    try:
+        o = int(out.split()[0])
+    except (ValueError, IndexError):
+        return False, "a number"
+    a = [int(x) for x in t]
+    if fn == 40:
+        x = db(a[0]); exp = bd(ddiv(1.0, x))
+        return o == exp, "rcp(double) = the correctly rounded 1/x = 0x%016X" % exp
+    if fn == 41:
+        x = db(a[0]); y = db(o)
+        if x != x or math.isinf(x):
+            return True, "(non-finite x: no requirement)"
+        if not (math.isfinite(y) and not (x > 0 and y < 0) and not (x < 0 and y > 0)):
+            return False, "rcp_safe(double x) finite and not of the opposite sign to x"
+        arg = (DBL_MIN if x >= 0 else -DBL_MIN) if abs(x) < DBL_MIN else x
+        exp = bd(1.0 / arg)
+        return o == exp, "rcp_safe(double) = 1/(|x| < DBL_MIN ? +-DBL_MIN : x) = 0x%016X" % exp
+    if fn == 42:
+        x = db(a[0]); exp = bd(ddiv(1.0, dsqrt(x)))
+        return o == exp, "rsqrt(double) = 1/sqrt(x) in double = 0x%016X" % exp
+    if fn == 43:
+        x, lo, hi, r = db(a[0]), db(a[1]), db(a[2]), db(o)
+        if x != x or lo != lo or hi != hi or not lo <= hi:
+            return True, "(NaN or lower>upper: no requirement)"
+        return lo <= r <= hi and (r == x or not lo <= x <= hi), "clamp<double>: inside [lower,upper], == x when x inside"
+    if fn == 44:
+        exp = bd(db(a[0]) * 0.017453292519943295)
+        return o == exp, "deg2rad<double>: x * (pi/180 as double) = 0x%016X" % exp
+    if fn == 45:
+        exp = bd(db(a[0]) * db(a[1]) + db(a[2]))
+        return o == exp, "madd<double>: double(a*b)+c, two roundings = 0x%016X" % exp
+    if fn == 46:
+        f, x, y = fb(a[0]), db(a[1]), db(a[2])
+        exp = bd(fadd(1.0, -f) * x + f * y)
+        return o == exp, "lerp<double>: (1.f-factor)*a + factor*b with the factor arithmetic in float = 0x%016X" % exp
+    if fn == 47:
+        x, lo, hi = a
+        if lo > hi:
+            return True, "(lower>upper)"
+        return lo <= o <= hi and (o == x or not lo <= x <= hi), "clamp<unsigned>: inside [lower,upper], == x when x inside"
+    return True, "(no oracle)"
+
+
+# (function, signature as clang prints it) of every namespace-level function / template of rkmath.h -> exercised type instantiations
+# and the harness fn codes that run them.  An entry of the AST inventory that is missing here makes the check fail closed.
+COVER = {
+    "sign": {"float": [8]},
+    "rcp": {"float": [1], "double": [40]},
+    "rcp_safe_t": {"float": [2], "double": [41]},
+    "rcp_safe": {"float": [2], "double": [41]},
+    "rsqrt": {"float": [3], "double": [42]},
+    "clamp": {"float": [4], "double": [43], "int": [24], "int64_t": [27], "unsigned": [47]},
+    "deg2rad": {"float": [5], "double": [44]},
+    "madd": {"float": [6], "double": [45]},
+    "lerp": {"float": [7], "double": [46]},
+    "divRoundUp": {"int": [20], "unsigned": [21], "size_t": [22], "int64_t": [23]},
+    "linear_to_srgb": {"float": [14]},
+}
+
+
+def inventory(ctx):
+    """namespace-level functions and function templates of rkcommon::math declared by rkmath.h (clang AST)"""
+    sys_path = os.path.join(ctx.verif, "tools", "cxx2coq")
+    import sys as _sys
+    if sys_path not in _sys.path:
+        _sys.path.insert(0, sys_path)
+    from astutil import load_docs
+    tu = os.path.join(ctx.build, "inv_tu.cpp")
+    open(tu, "w").write('#include "rkcommon/math/rkmath.h"\n')
+    js = os.path.join(ctx.build, "inv.json")
+    cmd = ["clang++", "-std=c++11", "-DNDEBUG", "-I" + ctx.repo, "-I" + ctx.include_dir(), "-fsyntax-only", "-Xclang", "-ast-dump=json",
+           "-Xclang", "-ast-dump-filter=rkcommon::math", tu]
+    with open(js, "w") as f:
+        import subprocess
+        p = subprocess.run(cmd, stdout=f, stderr=subprocess.PIPE, universal_newlines=True)
+    if p.returncode != 0:
+        ctx.broken.append("inventory of rkmath.h (clang failed)")
+        return []
+    inv = []
+    todo = list(load_docs(js))
+    while todo:
+        d = todo.pop()
+        k = d.get("kind")
+        if k == "NamespaceDecl":
+            todo += [c for c in d.get("inner", []) or [] if isinstance(c, dict)]
+        elif k == "FunctionDecl":
+            inv.append((d.get("name"), d.get("type", {}).get("qualType", ""), "function"))
+        elif k == "FunctionTemplateDecl":
+            fd = [c for c in d.get("inner", []) if c.get("kind") == "FunctionDecl"]
+            inv.append((d.get("name"), fd[0].get("type", {}).get("qualType", "") if fd else "", "template"))
+    return sorted(set(inv))
+
+
 # scalar linear_to_srgb of the implementation, per build, cached (filled in one batch by run(); single queries otherwise)
 SRGB_CACHE = {}
 
@@ -119,6 +241,8 @@ def scalar_srgb(bits_list, build, exe_query):
 def oracle(case, out, build, exe_query=None):
     """returns (ok, required) for one case line and the implementation's output line"""
     t = case.split()
+    if 40 <= int(t[0]) <= 47:
+        return oracle_double(int(t[0]), t[1:], out)
     fn, a = int(t[0]), [int(x) for x in t[1:]]
     if out.endswith("NONREPRO"):
         return False, "two generators seeded identically must produce identical values"
@@ -428,6 +552,9 @@ def gen_int_cases(r, scale):
         for _ in range(150 * scale):
             cs.append("%d %d %d %d" % (fn, r.choice(vals + [r.randint(-mx - 1, mx)]), r.choice(vals + [r.randint(-mx - 1, mx)]),
                                        r.choice(vals + [r.randint(-mx - 1, mx)])))
+    for _ in range(100 * scale):
+        vals = [0, 1, 2, 2 ** 31, 2 ** 32 - 1, 2 ** 32 - 2, r.getrandbits(32)]
+        cs.append("47 %d %d %d" % (r.choice(vals), r.choice(vals), r.choice(vals)))
     seeds = [0, 1, -1, 42, 54, 2147483647, -2147483648]
     for s in seeds:
         for q in seeds:
@@ -451,6 +578,11 @@ def nontrivial(case, out):
         return (a[0] & 0x7FFFFF) != 0 and (a[1] & 0x7FFFFF) != 0
     if fn in (10, 15, 26, 28):
         return len(set(a)) > 1
+    if 40 <= fn <= 46:        # a double at a format boundary, or one that narrows to +-0.0f / +-inf / a float denormal
+        return any((x & 0x7FFFFFFFFFFFFFFF) < 0x0010000000000004 or (x & 0x7FFFFFFFFFFFFFFF) >= 0x7FD0000000000000
+                   or abs(db(x)) < 1.1754943508222875e-38 or abs(db(x)) > 3.4028234663852886e38 for x in a[-2:] + a[:1])
+    if fn == 47:
+        return str(a[0]) != out.split()[0] or a[0] in (a[1], a[2])
     if fn in (11, 12):
         return not (a[2] == 0 and a[3] == 0x3F800000)
     if fn in (17, 18):     # denormal-scale regime, straddling zero, degenerate range, or an extreme generator output
@@ -622,6 +754,7 @@ def judge_exh(ctx, label, exe, stride, res=None):
 GEN_NEEDED = ["clamp__f_f_f", "clamp__i_i_i", "cvt_uint32__f", "cvt_uint32__v4f", "deg2rad__f", "divRoundUp__i_i",
               "divRoundUp__l_l", "divRoundUp__u_u", "divRoundUp__ul_ul", "lerp__f_f_f", "linear_to_srgb__f",
               "linear_to_srgba8__v4f", "madd__f_f_f", "rcp__f", "rcp_safe__f", "rsqrt__f", "sign__f",
+              "rcp__d", "rcp_safe__d", "rsqrt__d", "clamp__d_d_d", "deg2rad__d", "madd__d_d_d", "lerp__f_d_d",
               "pcg_detail_xsh_rr_mixin_output__ul", "pcg_extras_rotr__u_uc", "pcg_detail_specific_stream_mk__ul",
               "pcg_detail_default_multiplier_multiplier___4"]
 
@@ -704,6 +837,43 @@ def regenerate(ctx):
 
 
 # ------------------------------------------------------------------ main
+def boundary_doubles():
+    vals = [0.0, 5e-324, 1e-320, 2.0 ** -1022 - 5e-324, 2.0 ** -1022, 2.0 ** -1022 + 5e-324, 2.0 ** -1021, 1e-300,
+            2.0 ** -150, 2.0 ** -149, 1e-50, 7e-46, 1.1754943508222875e-38, 1.1754942e-38,          # narrow to +-0.0f / float denormals / FLT_MIN
+            3.4028234663852886e38, 3.4028235677973366e38, 3.5e38, 1e39, 1e300, 2.0 ** 1022, 2.0 ** 1023, 1.7976931348623157e308,
+            1.0, 1.0 - 2.0 ** -53, 1.0 + 2.0 ** -52, 0.5, 2.0, 3.0, 4.0, 0.1, 180.0, 255.0, math.inf]
+    b = [bd(v) for v in vals] + [0x7FF8000000000000, 0x7FF0000000000001]
+    return b + [x | 0x8000000000000000 for x in b]
+
+
+def rdouble(r):
+    c = r.random()
+    if c < 0.3:
+        return r.choice(boundary_doubles())
+    if c < 0.55:
+        return r.getrandbits(64)
+    if c < 0.75:
+        return bd(r.uniform(-2.0, 2.0))
+    e = r.choice([0, 1, 2, 873, 874, 896, 897, 1022, 1023, 1024, 1150, 1151, 2044, 2045, 2046])   # incl. the float range edges
+    return (r.getrandbits(1) << 63) | (e << 52) | r.choice([0, 1, (1 << 52) - 1, 1 << 51, r.getrandbits(52)])
+
+
+def gen_double_cases(r, scale):
+    cs = []
+    bnd = boundary_doubles()
+    for fn in (40, 41, 42, 44):
+        cs += ["%d %d" % (fn, b) for b in bnd]
+        cs += ["%d %d" % (fn, rdouble(r)) for _ in range(120 * scale)]
+    for _ in range(200 * scale):
+        cs.append("43 %d %d %d" % (rdouble(r), rdouble(r), rdouble(r)))
+        cs.append("45 %d %d %d" % (rdouble(r), rdouble(r), rdouble(r)))
+        cs.append("46 %d %d %d" % (r.choice([0, 0x3F800000, 0x3F000000, rfloat(r), bf(f32(r.random()))]), rdouble(r), rdouble(r)))
+    for _ in range(60 * scale):
+        lo = rdouble(r); hi = r.choice([lo, rdouble(r)])
+        cs.append("43 %d %d %d" % (r.choice([lo, hi, rdouble(r)]), lo, hi))
+    return cs
+
+
 def make_float_cases(ctx):
     r = ctx.rng("float")
     scale = ctx.pick(1, 5)
@@ -712,7 +882,7 @@ def make_float_cases(ctx):
     twin10 = t14 + t10[::step]                       # cvt_uint32(vec4f) on the grid: twin-compared subset ...
     rest10 = [t for i, t in enumerate(t10) if i % step]
     fcases = (gen_float_cases(r, scale) + gen_dist_cases(r, scale) + color_boundary_inputs()
-              + ["10 %d %d %d %d" % t for t in twin10])
+              + ["10 %d %d %d %d" % t for t in twin10] + gen_double_cases(r, scale))
     ocases = gen_oracle_only_cases(r, scale) + ["10 %d %d %d %d" % t for t in rest10]     # ... the rest oracle-only
     return fcases, ocases
 
@@ -736,12 +906,17 @@ def build_and_sweep(ctx):
         runs = {}
         for lab, exe in (("SIMD", exes[2]), ("NO_SIMD", exes[3])):
             runs[lab] = vlib.run_lines(ctx, exe, [], fcases + ocases)
-        sweeps["cases"] = (fcases, ocases, runs)
+        mvals = coq_eval(ctx, fcases)      # the .vo files were built by run() before this thread started
+        sweeps["cases"] = (fcases, ocases, runs, mvals)
     return exes, sweeps
 
 
 def run(ctx):
     regenerate(ctx)
+    # build the Coq project first (cached unless the regenerated text or a source changed) so that the worker thread can
+    # evaluate the binary32/binary64 twin with vm_compute while coq_check spends its time in Print Assumptions
+    ctx.coq_common()
+    ctx.coq_make()
     pool = ThreadPoolExecutor(max_workers=1)
     fut = pool.submit(build_and_sweep, ctx)
     ctx.coq_check(("Properties.v", "PropertiesGen.v", "PropertiesGenRandom.v"))
@@ -805,8 +980,7 @@ def run(ctx):
 
     # ---- leg 2: binary32 Coq model (vm_compute) vs both builds
     scale = ctx.pick(1, 5)
-    fcases, ocases, runs = sweeps["cases"]
-    mvals = coq_eval(ctx, fcases)
+    fcases, ocases, runs, mvals = sweeps["cases"]
     outs = {}
     for lab, exe in (("SIMD", h_simd), ("NO_SIMD", h_nosimd)):
         rc, lines, err = runs[lab]
@@ -826,6 +1000,7 @@ def run(ctx):
     hist = {}
     reported = set()
     nviol = 0
+    icases_preview = gen_int_cases(ctx.rng("int"), scale)
     grid_check(ctx, fcases + ocases, outs)
     for lab, exe in (("SIMD", h_simd), ("NO_SIMD", h_nosimd)):
         q = lambda s_, e=exe: ctx.run_exe(e, [], stdin=s_)
@@ -845,6 +1020,10 @@ def run(ctx):
                            "args_float": [repr(fb(int(x))) for x in a] if fn < 11 else None,
                            "observed": il, "required": req, "model": mvals[i] if mvals and i < len(fcases) else None}
                     sig = None
+                    if 40 <= fn <= 46:
+                        rep["args_double"] = [repr(db(int(x))) if not (fn == 46 and j == 0) else repr(fb(int(x))) for j, x in enumerate(a)]
+                        rep["args_hex"] = ["0x%016X" % int(x) for x in a]
+                        rep["observed_double"] = repr(db(int(il.split()[0]))) if il.split()[0].isdigit() else il
                     if fn in (17, 18):
                         rep.update({"distribution": "pcg32_biased_float_distribution" if fn == 17 else "uniform_real_distribution<float>",
                                     "lower": repr(fb(int(a[0]))), "upper": repr(fb(int(a[1]))), "rng_output": int(a[2]),
@@ -861,6 +1040,24 @@ def run(ctx):
                 reported.add((lab, fn, "corr"))
                 ctx.broken.append("correspondence binary32 Coq model vs %s build on case %r: impl=%s model=%s (property oracle satisfied: %s)"
                                   % (lab, c, il, mvals[i], req))
+    # which (function, type) pairs of rkmath.h are exercised: AST inventory vs the coverage table
+    inv = inventory(ctx)
+    pairs = {}
+    for name, sig, kind in inv:
+        if name not in COVER:
+            ctx.broken.append("rkmath.h declares %s %s : %s, which no case exercises (extend props/C07/check.py COVER)" % (kind, name, sig))
+            continue
+        if kind == "function":
+            pty = "double" if "double" in sig else "float"
+            if pty not in COVER[name]:
+                ctx.broken.append("rkmath.h declares the overload %s : %s, which no case exercises at %s" % (name, sig, pty))
+        for ty, codes in COVER[name].items():
+            n = sum(hist.get(c, 0) for c in codes) + sum(1 for c in icases_preview if int(c.split()[0]) in codes)
+            pairs["%s<%s>" % (name, ty)] = {"harness_fn": codes, "cases_x_builds": n}
+            if n == 0 and name != "linear_to_srgb":
+                ctx.broken.append("no case ran %s at %s" % (name, ty))
+    ctx.cov["function_type_pairs"] = pairs
+    ctx.cov["rkmath_inventory"] = ["%s %s : %s" % (k, n, sg) for n, sg, k in inv]
     ctx.cov["float_cases"] = {"model_compared": len(fcases), "oracle_only": len(ocases), "per_function_x2_builds": hist}
 
     # ---- leg 3: extracted Z model vs both builds
